@@ -192,6 +192,7 @@ type c11Result struct {
 	evs            []string    // model events
 	batches        []string    // ids (model numbering) sent per non-empty query, in order
 	sentTotal      int
+	completed      int // deliveries of the subscription that are completed when the case ends
 	spins          int
 	queries        int
 }
@@ -465,6 +466,9 @@ func c11Run(t *testing.T, seed int64, cs c11Case, known map[string]bool) *c11Res
 			}
 		}
 		res.sentTotal = len(conn.sent)
+		if n, err := w.Client.Delivery.Query().Where(delivery.SubscriptionID(subID), delivery.CompletedAtNotNil()).Count(qctx); err == nil {
+			res.completed = n
+		}
 		w.Ctl.SpinGuard("", 0)
 		cancel()
 		w.Ctl.SpinReset()
